@@ -325,14 +325,14 @@ func main() {
 		"message is signed by the real Sign and verified by the real Verify untouched, with the associated data " +
 		"re-split, and after one mutation (byte of header/body/AD/signature, AD grown/shrunk, message/AD boundary " +
 		"moved, (r,n-s), other key/curve/key type, other algorithm); distinct = distinct op lines"
-	nMsgs := e.N(260, 2600)
-	perRegion := e.N(6, 40)
+	nMsgs := e.N(260, 900)
+	perRegion := e.N(6, 24)
 	for i := 0; i < nMsgs; i++ {
 		e.oneMessage(i, perRegion)
 	}
 	e.malformedEnc(e.N(600, 6000))
 	if e.Thorough() {
-		e.exhaustive(3)
+		e.exhaustive(1)
 	} else {
 		e.exhaustive(0)
 	}
@@ -580,7 +580,7 @@ func (e *env) oneMessage(i int, perRegion int) {
 
 // exhaustive: every byte position of HeaderAndBody, associated data and signature; quick: every
 // position x all 8 single-bit flips for one small message per curve; thorough: additionally all 255
-// byte values for `full` messages per curve.
+// byte values for `full` further messages per curve.
 func (e *env) exhaustive(full int) {
 	r := e.r
 	for ci, c := range curves {
